@@ -55,7 +55,6 @@ func verifAssert(bool) {}
 
 // cdOK: the representation invariant CandleDurationFromString establishes (regexp, not verified): a known suffix and
 // duration = multiplier * unit for the suffixes that have a unit ("M" has none: duration 0).
-//@ ghost func unitOf(s string) int
 
 //@ func (*CandleDuration).Truncate
 //@ props C31
